@@ -353,16 +353,23 @@ def secOf (st : St) : Call → SecId
   | .metadata .. => ⟨st.level, .metadata⟩
   | .diff .. => ⟨st.level, .diff⟩
 
+/-- the `indent` check of `add_preamble`: `None` or a non-negative integer -/
+def preIndent : Option Int → Option CallResult
+  | some n => if n < 0 then some .optionError else none
+  | none => none
+
 /-- the argument checks a call performs before the order check -/
 def pre (env : Env) : Call → Option CallResult
   | .newChange _ => none
   | .newFile _ => none
-  | .preamble text _ _ _ mime =>
+  | .preamble text _ indent _ mime =>
     match text with
     | .str _ =>
       (match mime with
-       | some m => if !mimetypes.contains m then some .optionError else none
-       | none => none)
+       | some m =>
+         if !mimetypes.contains m then some .optionError
+         else preIndent indent
+       | none => preIndent indent)
     | _ => some .contentError
   | .metadata m _ fmt =>
     match m with
@@ -416,10 +423,29 @@ theorem call_run (env : Env) (cfg : Config) (c : Call) (st : St) :
     cases text with
     | str t =>
       cases mime with
-      | none => simpa [call, pre, secOf, payload, bind, EStateM.bind, EStateM.run, pure, EStateM.pure] using key
+      | none =>
+        cases indent with
+        | none =>
+          simpa [call, pre, preIndent, secOf, payload, bind, EStateM.bind, EStateM.run, pure, EStateM.pure]
+            using key
+        | some n =>
+          by_cases hn : n < 0
+          · simp [call, pre, preIndent, bind, EStateM.bind, EStateM.run, throw, throwThe,
+              MonadExceptOf.throw, EStateM.throw, hn]
+          · simpa [call, pre, preIndent, secOf, payload, bind, EStateM.bind, EStateM.run, pure,
+              EStateM.pure, hn] using key
       | some m =>
         by_cases hm : m ∈ mimetypes
-        · simpa [call, pre, secOf, payload, bind, EStateM.bind, EStateM.run, pure, EStateM.pure, hm] using key
+        · cases indent with
+          | none =>
+            simpa [call, pre, preIndent, secOf, payload, bind, EStateM.bind, EStateM.run, pure,
+              EStateM.pure, hm] using key
+          | some n =>
+            by_cases hn : n < 0
+            · simp [call, pre, preIndent, bind, EStateM.bind, EStateM.run, throw, throwThe,
+                MonadExceptOf.throw, EStateM.throw, hm, hn]
+            · simpa [call, pre, preIndent, secOf, payload, bind, EStateM.bind, EStateM.run, pure,
+                EStateM.pure, hm, hn] using key
         · simp [call, pre, bind, EStateM.bind, EStateM.run, throw, throwThe,
             MonadExceptOf.throw, EStateM.throw, hm]
     | _ =>
@@ -577,7 +603,7 @@ theorem EB_payload (env : Env) (cfg : Config) (st : St) (c : Call) : EB (payload
   | diff content dtype enc le => exact EB_contentPayload ..
 
 theorem pre_benign (env : Env) (c : Call) (e : CallResult) (h : pre env c = some e) : Benign e := by
-  unfold pre at h
+  unfold pre preIndent at h
   repeat' split at h
   all_goals first
     | (cases h; done)
@@ -697,6 +723,54 @@ theorem step_atomic (env : Env) (cfg : Config) (st : St) (c : Call) :
     · split
       · intro _; rfl
       · intro h; exact absurd rfl h
+
+/-! ### the `indent` check of `add_preamble` -/
+
+/-- a negative preamble indent fails the argument checks, whatever the other arguments are -/
+theorem pre_preamble_negative (env : Env) (text : Arg) (enc : Option Name) (n : Int) (hn : n < 0)
+    (le mime : Option Text) : ∃ e, pre env (.preamble text enc (some n) le mime) = some e := by
+  cases text with
+  | str t =>
+    cases mime with
+    | none => exact ⟨.optionError, by simp [pre, preIndent, hn]⟩
+    | some m =>
+      by_cases hm : m ∈ mimetypes
+      · exact ⟨.optionError, by simp [pre, preIndent, hn, hm]⟩
+      · exact ⟨.optionError, by simp [pre, hm]⟩
+  | bytes b => exact ⟨.contentError, by simp [pre]⟩
+  | dict j => exact ⟨.contentError, by simp [pre]⟩
+  | other => exact ⟨.contentError, by simp [pre]⟩
+
+/-- a `str` preamble with a negative indent: `DiffXOptionValueError` (for the indent, or
+already for the mimetype), nothing written, writer unchanged -/
+theorem step_preamble_negative (env : Env) (cfg : Config) (st : St) (t : Text) (enc : Option Name)
+    (n : Int) (hn : n < 0) (le mime : Option Text) :
+    step env cfg st (.preamble (.str t) enc (some n) le mime) = (st, .optionError) := by
+  rw [step_eq]
+  cases mime with
+  | none => simp [pre, preIndent, hn]
+  | some m =>
+    by_cases hm : m ∈ mimetypes
+    · simp [pre, preIndent, hn, hm]
+    · simp [pre, hm]
+
+/-- a preamble call with a negative indent is rejected and leaves the writer unchanged,
+whatever is passed as text -/
+theorem step_preamble_negative_rejected (env : Env) (cfg : Config) (st : St) (text : Arg)
+    (enc : Option Name) (n : Int) (hn : n < 0) (le mime : Option Text) :
+    (step env cfg st (.preamble text enc (some n) le mime)).2 ≠ .ok ∧
+    (step env cfg st (.preamble text enc (some n) le mime)).1 = st := by
+  obtain ⟨e, he⟩ := pre_preamble_negative env text enc n hn le mime
+  have hb := pre_benign env _ e he
+  rw [step_eq, he]
+  exact ⟨hb.1, rfl⟩
+
+/-- an accepted preamble call had `indent=None` or a non-negative indent -/
+theorem step_preamble_ok_indent_nonneg (env : Env) (cfg : Config) (st : St) (text : Arg)
+    (enc : Option Name) (n : Int) (le mime : Option Text)
+    (h : (step env cfg st (.preamble text enc (some n) le mime)).2 = .ok) : 0 ≤ n := by
+  refine Int.not_lt.mp fun hn => ?_
+  exact (step_preamble_negative_rejected env cfg st text enc n hn le mime).1 h
 
 /-- what an accepted call does -/
 theorem step_ok (env : Env) (cfg : Config) (st : St) (c : Call) (h : (step env cfg st c).2 = .ok) :
